@@ -119,6 +119,7 @@ static void c01(Sink &sink, const Args &a, long c)
     try
     {
         planner = makePlanner(pi, *w, rng);
+        if (widx % 5 == 3 && !flipBoolParams(planner, rng, 0.3).empty()) sink.count("cases_with_flipped_bool_params");
         planner->setProblemDefinition(pdef);
         planner->setup();
     }
@@ -186,6 +187,7 @@ struct LeakScope
     }
 };
 
+static double g_multiGoalProb = 0.4;
 // changes the query of a world: new valid start/goal states drawn in the corner regions
 static void newQuery(World &w, Rng &rng)
 {
@@ -212,8 +214,8 @@ static void newQuery(World &w, Rng &rng)
     w.badStarts.clear();
     w.badGoals.clear();
     w.goalType = 0;
-    // 4 of 10 queries have several goal states at different distances (optimizing planners prune the far ones)
-    if (rng.coin(0.4))
+    // 4 of 10 queries (8 of 10 when asked for) have several goal states at different distances (optimizing planners prune the far ones)
+    if (rng.coin(g_multiGoalProb))
     {
         w.goalType = 1;
         int extra = 1 + (int)rng.ui(2);
@@ -237,7 +239,8 @@ static void c03History(Sink &sink, const Args &a, long c, const PInfo &pi, long 
     auto w = makeWorld(wseed, kind, false, 4);
     w->rangeMode = 0;
     Rng rng(caseSeed(a, c));
-    if (hidx % 3 == 1) newQuery(*w, rng);  // a third of the histories start with a (possibly multi-goal) drawn query
+    g_multiGoalProb = (hidx == 1 || hidx == 2) ? 0.8 : 0.4;
+    if (hidx % 3 == 1 || hidx == 2) newQuery(*w, rng);  // a third of the histories start with a (possibly multi-goal) drawn query
     OracleCtx ctx{sink, *w, pi, "C03", "solution-", nullptr};
     OracleCtx hctx{sink, *w, pi, "C03", "", nullptr};
     std::string hist;
@@ -262,6 +265,13 @@ static void c03History(Sink &sink, const Args &a, long c, const PInfo &pi, long 
             // the first history of every planner is fixed: solve, switch the problem definition without clear(), solve
             const bool fixedHistory = (hidx == 0);
             if (fixedHistory) len = 3;
+            // histories 1 and 2 are fixed as well: reuse after clear() / clearQuery() with drawn (often multi-goal) queries:
+            //   1: solve, solve, [new query + clear(), solve, solve] x 3        2: solve, [clearQuery + new query, solve] x 3
+            static const int H1[] = {0, 0, 6, 0, 0, 6, 0, 0, 6, 0, 0};
+            static const int H2[] = {0, 3, 0, 3, 0, 3, 0};
+            const int *fixedOps = hidx == 1 ? H1 : hidx == 2 ? H2 : nullptr;
+            if (hidx == 1) len = 11;
+            if (hidx == 2) len = 7;
             // after setProblemDefinition(new) without clear(): wrong end points of the next paths are symptoms of one root
             // cause (the planner did not forget the previous query) and share one key
             bool dirtySwitch = false;
@@ -279,6 +289,7 @@ static void c03History(Sink &sink, const Args &a, long c, const PInfo &pi, long 
             {
                 int op = step == 0 ? 0 : (int)rng.ui(7);
                 if (fixedHistory) op = step == 1 ? 4 : 0;
+                if (fixedOps) op = fixedOps[step];
                 hist += std::string(hist.empty() ? "" : ",") + OPN[op];
                 sink.count(std::string("c03_op_") + OPN[op]);
                 try
@@ -670,9 +681,14 @@ static void c04Planner(Sink &sink, const Args &a, long c, long idx)
         opt->setCostThreshold(opt->infiniteCost());  // never satisfied: keep optimizing
     pdef->setOptimizationObjective(opt);
     ob::PlannerPtr planner;
+    std::string flipped;
     try
     {
         planner = makePlanner(pi, *w, rng);
+        // every other world runs with randomly flipped boolean planner parameters (delayed collision checking, pruning,
+        // rejection variants, k-nearest, ...): the non-default code paths
+        if (widx % 2 == 1) flipped = flipBoolParams(planner, rng, 0.3);
+        if (!flipped.empty()) sink.count("c04_cases_with_flipped_bool_params");
         planner->setProblemDefinition(pdef);
         planner->setup();
     }
@@ -686,13 +702,13 @@ static void c04Planner(Sink &sink, const Args &a, long c, long idx)
     double bestStored = 0;
     bool haveBest = false;
     long checked = 0;
-    auto detail = [&](const std::string &what) { return ctx.detail(what).str("objective", OBJN[objKind]).b("finite_threshold", finiteThr); };
+    auto detail = [&](const std::string &what) { return ctx.detail(what).str("objective", OBJN[objKind]).b("finite_threshold", finiteThr).str("flipped_params", flipped); };
     long violBefore = sink.violTotal();
     for (int round = 0; round < rounds && sink.violTotal() == violBefore; ++round)
     {
         std::set<const ob::Path *> seen;
         for (auto &sol : pdef->getSolutions()) seen.insert(sol.path_.get());
-        EvalPTC e((long)(pi.budget * (0.35 + 0.25 * round)), false, pdef);
+        EvalPTC e((long)(pi.budget * (0.2 + 0.15 * round)), false, pdef);
         try
         {
             planner->solve(e.ptc);
@@ -724,10 +740,12 @@ static void c04Planner(Sink &sink, const Args &a, long c, long idx)
             double stored = sol.cost_.value();
             double tol = 1e-6 * (1 + std::fabs(tc));
             bool storedBetter = sol.opt_->isCostBetterThan(ob::Cost(stored), ob::Cost(tc)) && std::fabs(stored - tc) > tol;
+            // direction-dependent objectives get their own keys (roadmap planners keep one weight per undirected edge)
+            const std::string osfx = (objKind == 2 || objKind == 3) ? std::string(":") + OBJN[objKind] : std::string();
             if (storedBetter)
-                sink.viol("C04:stored-cost-better-than-true:" + pi.name, detail("stored cost is better than the path's true cost").num("stored", stored).num("true", tc).b("approximate", sol.approximate_).num("library_path_cost", path->cost(sol.opt_).value()).i("states", path->getStateCount()));
+                sink.viol("C04:stored-cost-better-than-true:" + pi.name + osfx, detail("stored cost is better than the path's true cost").num("stored", stored).num("true", tc).b("approximate", sol.approximate_).num("library_path_cost", path->cost(sol.opt_).value()).i("states", path->getStateCount()));
             else if (pi.eagerCost && !sol.approximate_ && std::fabs(stored - tc) > tol)
-                sink.viol("C04:stored-cost-differs:" + pi.name, detail("stored cost differs from the path's true cost (planner maintains costs eagerly)").num("stored", stored).num("true", tc));
+                sink.viol("C04:stored-cost-differs:" + pi.name + osfx, detail("stored cost differs from the path's true cost (planner maintains costs eagerly)").num("stored", stored).num("true", tc));
             if (std::fabs(stored - tc) > tol) sink.count("c04_stored_cost_worse_than_true");
             // admissible lower bound (path length): straight-line distance between the path's end points
             if (objKind == 0)
@@ -986,7 +1004,7 @@ int main(int argc, char **argv)
     else if (a.prop == "C03") total = NP * ((a.thorough() ? 33 * 3 : 9 * 2) + (a.thorough() ? 60 : 12)), fn = c03;
     else if (a.prop == "C04")
     {
-        g_c04PlannerCases = (long)(optPlanners().size() * 5 * (a.thorough() ? 9 : 1) * a.scale);
+        g_c04PlannerCases = (long)(optPlanners().size() * 5 * (a.thorough() ? 12 : 2) * a.scale);
         total = g_c04PlannerCases + (a.thorough() ? 20000 : 3000);
         fn = c04;
     }
